@@ -407,14 +407,14 @@ def f_sort(ev, value, reverse=False, case_sensitive=False, attribute=None):
     key = _ignore_case(case_sensitive)
     try:
         return sorted(items, key=key, reverse=reverse)
-    except TypeError:
-        # "Sort an iterable using Python's sorted": equal but unorderable items ([None, None]) make sorted() raise,
-        # unless the (unspecified) key function wraps them - Python compares containers by identity/equality first.
-        # Only an error that every such key function gives is claimed.
+    except Exception as first:  # TypeError, or the reference undefined refusing '<'
+        # "Sort an iterable using Python's sorted": equal but unorderable items ([None, None], two undefined
+        # values of the same type) make sorted() raise, unless the (unspecified) key function wraps them - Python
+        # compares containers by identity/equality first.  Only an error that every such key function gives is claimed.
         try:
             sorted(items, key=lambda x: [key(x)], reverse=reverse)
-        except TypeError:
-            raise
+        except Exception:
+            raise first from None
         raise RefDecline("sort of equal unorderable items: depends on the unspecified key function")
 
 
